@@ -14,7 +14,8 @@ CONSTANTS MaxNodes,      \* bound on tree size
           Names,         \* name ids used (subset of the dictionary)
           Emit           \* TRUE: print EDGE lines
 
-DictAll == JsonDeserialize(IOEnv.DICT)
+DictFile == JsonDeserialize(IOEnv.DICT)      \* read once (see Trace_File)
+DictAll == DictFile
 MCDict  == [n \in Names |-> DictAll[n]]
 
 VARIABLES st, hist, lastres
